@@ -1,14 +1,153 @@
-"""C05 - model-level property decided with spec/ModelBuild.tla (see harness/modelcheck.py)."""
-from harness import modelcheck
+"""C05 - the generated system is closed, canonical and free of placeholder names.
+
+Two specifications decide it:
+  * spec/ModelBuild.tla (shared model-level driver, harness/modelcheck.py): C05_Closed on the abstract final state;
+    rebuilt models embed names requested before full codes exist in sector equations, product terms, supplier rules
+    and global equations; the emitted text is checked for placeholders, duplicate / non-canonical names, dangling
+    references and meaning preservation.
+  * spec/Names.tla: the life of a placeholder - every sequence of (request a name, embed it in a place) made before
+    main() or, through a user-defined sector, inside main() after full codes exist; invariant C05_NoPlaceholder.
+    Each behaviour is replayed on a real SIM-like model and validated by Names_Trace.
+"""
+import json
+
+from harness import core, modelcheck
 
 PROP = 'C05'
 PREFIXES = ['C05_']
 
 
+def names_job(beh, seed):
+    """one Names behaviour on a real model"""
+    from sfc_models.models import Model, Country
+    from sfc_models.sector import Sector, Market
+    from sfc_models.sector_definitions import ConsolidatedGovernment, Household, FixedMarginBusiness, TaxFlow
+    from harness import modelkit, modelprops as mp, project
+    reqs = beh['requests']
+    m = Model()
+    c = Country(m, 'C', currency='C')
+    objs = {}
+    objs['GOV'] = ConsolidatedGovernment(c, 'GOV')
+    objs['HH'] = Household(c, 'HH')
+    objs['BUS'] = FixedMarginBusiness(c, 'BUS')
+    objs['TF'] = TaxFlow(c, 'TF', taxrate=0.2)
+    objs['LAB'] = Market(c, 'LAB')
+    objs['GOOD'] = Market(c, 'GOOD')
+    events = []
+    counter = [0]
+
+    def embed(r, when):
+        owner = objs[r['var'][0]]
+        name = owner.GetVariableName(r['var'][1])
+        counter[0] += 1
+        n = counter[0]
+        got = name.startswith('_') and '__' in name and name.split('__')[0][1:].isdigit()
+        place = r['place']
+        if place == 'sector_eq':
+            objs['HH'].AddVariable('PROBE%d' % n, 'probe', '2.0*%s' % name)
+        elif place == 'term':
+            objs['HH'].AddVariable('PROBE%d' % n, 'probe', '')
+            objs['HH'].AddTermToEquation('PROBE%d' % n, '%s*AlphaFin' % name)
+        elif place == 'supplier_rule':
+            objs['GOOD'].AddVariable('PROBE%d' % n, 'probe', '0.5*%s' % name)
+        elif place == 'global':
+            m.AddGlobalEquation('PROBE%d' % n, 'probe', '3.0*%s' % name)
+        events.append({'ev': 'Request', 'place': place, 'var': r['var'], 'when': when, 'got_placeholder': bool(got)})
+
+    late = [r for r in reqs if not r['placeholder']]
+    early = [r for r in reqs if r['placeholder']]
+
+    class Probe(Sector):
+        """a user-defined sector: its _GenerateEquations runs inside main(), after full codes exist"""
+        def _GenerateEquations(self):
+            for r in late:
+                embed(r, 'coded')
+
+    for r in early:
+        embed(r, 'construct')
+    objs['PROBE'] = Probe(c, 'PRB', has_F=False)
+    objs['GOV'].SetExogenous('DEM_GOOD', '[0.] + [20.]*5')
+    m.MaxTime = 2
+    ev = {'ev': 'Main', 'main_ok': True, 'no_placeholder': True, 'closed': True, 'canonical': True, 'defined_once': True,
+          'meaning': True}
+    info = {}
+    try:
+        m.main()
+    except Exception as e:  # noqa
+        info['main_error'] = '%s: %s' % (type(e).__name__, str(e)[:200])
+    text = m.FinalEquations
+    if not text:
+        ev['main_ok'] = False
+    else:
+        b = modelkit.Built()
+        b.model = m
+        b.final_text = text
+        b.sectors = {'C.' + k: v for k, v in objs.items()}
+        try:
+            b.system = project.parse_system(text)
+            cl = mp.closure(b)
+            ev.update(no_placeholder=not cl['placeholders'], closed=not (cl['dangling'] or cl['ic_undefined']),
+                      canonical=not (cl['noncanonical'] or cl['missing'] or cl['extra']), defined_once=not cl['dupes'],
+                      meaning=not mp.meaning_preserved(b, seed=seed))
+            info['closure'] = cl
+        except project.ProjectionError as e:
+            ev.update(closed=False)
+            info['projection'] = str(e)
+    return events + [ev], info
+
+
+def run_names(rep):
+    cfg = 'MC_Names_quick.cfg' if rep.tier == 'quick' else 'MC_Names_thorough.cfg'
+    res = core.tlc('MC_Names', cfg, workers=1, tag='c05n')
+    if res.violated:
+        raise core.MachineryError('Names invariant %s violated' % res.violated)
+    rep.add_tlc(res, 'exhaustive Names ' + cfg)
+    behs = core.json_of_printed(res, 'BEH')
+    if not behs:
+        raise core.MachineryError('Names run emitted no behaviours')
+    seen = {}
+    for b in behs:
+        seen[core.canonical(b)] = b
+    behs = list(seen.values())
+    traces, infos = [], []
+    for i, b in enumerate(behs):
+        ev, info = names_job(b, rep.seed)
+        traces.append((i, ev))
+        infos.append(info)
+        rep.add_case({'names_behaviour': b}, any(r['placeholder'] for r in b['requests']))
+    verdicts, st, tr = core.validate_traces('MC_Names_Trace', 'MC_Names_Trace.cfg', traces, tag='c05n')
+    rep.traces += len(traces)
+    rep.extra['names_behaviours'] = len(behs)
+    for i, b in enumerate(behs):
+        for cl in [x for x in verdicts[i].split(':', 1)[1].split(',') if x]:
+            if cl.startswith('C05_'):
+                places = sorted({r['place'] for r in b['requests'] if r['placeholder']})
+                rep.violate(cl, '%s:placeholder-embedded-in:%s' % (cl, '+'.join(places) or 'none'),
+                            {'names_behaviour': b}, detail=json.dumps(infos[i], default=str)[:500])
+            elif cl.startswith('drift_'):
+                rep.add_drift(cl, {'names_behaviour': b})
+
+
 def run(rep):
     modelcheck.describe(rep, PROP)
+    rep.rule += '; plus every behaviour of spec/Names.tla (name requests before / inside main() x embedding places)'
     modelcheck.run_property(rep, PROP, PREFIXES)
+    run_names(rep)
 
 
 def replay(path):
+    with open(path) as f:
+        data = json.load(f)
+    if 'names_behaviour' in data['case']:
+        rep = core.Report(PROP, 'quick', 0)
+        b = data['case']['names_behaviour']
+        ev, info = names_job(b, 0)
+        verdicts, st, tr = core.validate_traces('MC_Names_Trace', 'MC_Names_Trace.cfg', [(0, ev)], tag='c05n')
+        print(json.dumps({'behaviour': b, 'events': ev, 'info': info}, default=str)[:2000])
+        bad = [c for c in verdicts[0].split(':', 1)[1].split(',') if c.startswith('C05_')]
+        if bad:
+            print('VIOLATION property=C05 replay=%s' % path)
+            return 1
+        print('replay: property clauses hold on this case now')
+        return 0
     return modelcheck.replay_case(PROP, PREFIXES, path)
